@@ -111,6 +111,8 @@ fn main() {
                 sample_docs(&mut report, kind, &inp.sequences);
                 let mut docs = inp.all();
                 docs.extend(c06::c05_docs());
+                let contexts: [&[u8]; 6] = [b"", b"1 ", b"1 sort ", b"1 sort bitvec ", b"1 sort bitvec 1\n2 input 1 ", b"1 sort bitvec 1\n2 "];
+                docs.extend(generic::long_token_docs(&contexts));
                 groups.push((kind.to_string(), subs, generic::dedup_docs(docs)));
             }
             generic::c05_isolated(&groups, tier.pick(40.0, 1500.0), &mut report);
